@@ -1167,6 +1167,8 @@ def h_iter(I, st, callee, target, args, ctx):
         return [(st, VIter(VSlice(("seq", v.term), Lin.const(0), I.seq_len(st, v.term)), Lin.const(0)))]
     if isinstance(v, VIter):
         return [(st, v)]
+    if isinstance(v, VParser) and v.kind.startswith("it_"):
+        return [(st, v)]
     if isinstance(v, VAdt) and v.adt.endswith("ops::range::Range"):
         return [(st, v)]
     raise Unanalysable("iter over %r" % (v,))
@@ -1454,7 +1456,58 @@ def h_next(I, st, callee, target, args, ctx):
         return [(st, NONE)]
     if isinstance(it, VIter):
         return I.iter_next(st, r, it, ctx)
+    if isinstance(it, VParser) and it.kind.startswith("it_"):
+        return opaque_loop(I, st, r, it, ctx)
     raise Unanalysable("Iterator::next on %r" % (it,))
+
+
+def opaque_loop(I, st, r, it, ctx):
+    """`for item in <io iterator>`: the body is interpreted once per kind of generic item; it may
+    change nothing that lives across iterations except through opaque library calls (cells it does
+    change are treated as temporaries and re-verified); leaving the function from inside the body is
+    reported to the caller as a loop_return."""
+    from .interp import UNINIT
+    body, frame, hdr, term = ctx["body"], ctx["frame"], ctx["bb"], ctx["term"]
+    tgt, dest = term["target"], term["dest"]
+    if any(e[0] == "drain" for e in st.events):
+        raise Unanalysable("second loop over the line iterator")
+    pre_cells = set(st.store.keys())
+    temps = set()
+    for _round in range(6):
+        backs, rets = [], []
+        base = st.copy()
+        base.event("drain", "for")
+        for c in temps:
+            base.store[c] = UNINIT
+        for s2, item in iter_items(I, base.copy(), it, ctx):
+            I.write_place(s2, frame, dest, mk_some(item))
+            b, rt = I.run_region(s2, body, frame, tgt, hdr)
+            backs += b
+            rets += rt
+        new_temps = set()
+        for b in backs:
+            for c in pre_cells:
+                if c in temps or (c == r.cell):
+                    continue
+                if b.store.get(c) is not st.store[c] and valkey(b.store.get(c)) != valkey(st.store[c]):
+                    new_temps.add(c)
+        if not new_temps:
+            break
+        temps |= new_temps
+    else:
+        raise Unanalysable("loop temporaries do not stabilise")
+    for b in backs:
+        b.event("body_done")
+        I.item_paths.append(b)
+    for (s2, rv) in rets:
+        s2.event("loop_return", "io")
+        I.item_paths.append(s2)
+        ctx["results"].append((s2, rv))
+    stE = st.copy()
+    stE.event("drain", "for")
+    for c in temps:
+        stE.store[c] = UNINIT
+    return [(stE, NONE)]
 
 
 @ext("core::iter::traits::iterator::Iterator::fold")
@@ -1826,6 +1879,7 @@ def h_for_each(I, st, callee, target, args, ctx):
             nbody += 1
             s3.event("body_done")
             outs.append(s3)
+            I.item_paths.append(s3)
     # continue after the loop from each body outcome (all leave the caller's locals alone except
     # through the captured &mut, which is opaque library state)
     return [(s, UNIT) for s in outs] + [(st, UNIT)]
